@@ -56,6 +56,7 @@ void vf_sample(const char *fmt, ...) __attribute__((format(printf, 1, 2)));
 void vf_violation(const char *key, const char *fmt, ...)
     __attribute__((format(printf, 2, 3)));
 long vf_violations(void);
+const char *vf_last_violation_key(void); // "" if none
 // Harness failure (not a property violation): exit 2 via the driver.
 void vf_harness_fail(const char *fmt, ...)
     __attribute__((format(printf, 1, 2), noreturn));
